@@ -228,8 +228,31 @@ def eval_case(lane, client, case):
     """Run one case on the implementation and on the model; return a result record."""
     from harness import gen as _gen
     _gen.take_failures()
+    import signal
+    limit = int(os.environ.get('VERIF_CASE_SECONDS', '180'))
+
+    def _too_long(signum, frame):
+        raise CaseTimeout()
+    armed = False
     try:
-        r = lane.run_case(case)
+        signal.signal(signal.SIGALRM, _too_long)
+        signal.alarm(limit)
+        armed = True
+    except (ValueError, AttributeError):      # not in the main thread of the worker
+        pass
+    try:
+        try:
+            r = lane.run_case(case)
+        finally:
+            if armed:
+                signal.alarm(0)
+    except CaseTimeout:
+        # one case that normally takes milliseconds did not finish: the implementation hangs or blows up on this input
+        # (a corrupted graph with a cycle among its parent links, a path enumeration that no longer terminates, ...)
+        _gen.take_failures()
+        return {'case': case, 'diffs': [], 'ndiffs': 0, 'nontrivial': False, 'key': '', 'tags': ['case-timeout'], 'nlines': 0,
+                'oracle': [f'case-timeout | the implementation did not finish this case within {limit} s (on the unchanged '
+                           f'tree a case of this lane takes well under a second)']}
     except MachineryError:
         raise
     except Exception as e:  # a harness crash on a case is reported as machinery trouble, with the case
@@ -279,10 +302,16 @@ def sh(cmd, cwd=None, timeout=3600):
     return p.returncode, p.stdout
 
 
+class CaseTimeout(BaseException):
+    """raised by the per-case alarm (BaseException: the lanes' `except Exception` clauses must not swallow it)"""
+
+
 def sig_of(lane, case, failure):
     """identity of an oracle failure: the lane's own classification, or a generic one for failures the shared builders
     report (and for texts a lane's classifier cannot read)"""
     import hashlib
+    if failure.startswith('case-timeout |'):
+        return lane.PROP + ':case-timeout'
     if failure.startswith('while building the graph:'):
         return lane.PROP + ':build:' + hashlib.sha1(failure.split(' changed ')[0][:120].encode()).hexdigest()[:10]
     try:
